@@ -11,6 +11,7 @@ stream   1-3 messages (built by the real SendingMessage, by the harness's own en
          length-field rewrites, annotation/data boundary shifts, chunk-length rewrites, insert/delete).
 direct   the same bytes handed to ReceivingMessage(header, payload) without a socket.
 sender   sender-side inputs only: bad annotation keys, str values, sizes around MAX_MESSAGE_SIZE.
+sweep    one small message and one fault kind applied at EVERY offset (truncate after o bytes / flip byte o).
 
 The oracle walks the delivered byte stream in lockstep with an independent reference codec
 (sim.net.parse_header / parse_annotations + the builder below): whatever Pyro accepts must be a
@@ -286,7 +287,7 @@ class WireWorld(World):
                    "only byte-format memoryview annotation values are generated",
                    "a caller-supplied FLAGS_COMPRESSED / FLAGS_CORR_ID bit is treated as 'managed by the codec' (10% of messages)",
                    "retryable errnos come in bursts of at most 3; timeouts are not part of this property"]
-    QUICK_RUNS = 24000
+    QUICK_RUNS = 16000
     CHUNK = 250
     SHRINK_LISTS = ["cases"]
 
@@ -542,6 +543,20 @@ class WireWorld(World):
                 p["cfg"][k] = v
                 yield p
         for i, c in enumerate(plan["cases"]):
+            if c.get("k") == "sweep":
+                # a sweep is the union of single-offset stream cases: find the one that matters
+                for o in range(640):
+                    p = copy.deepcopy(plan)
+                    sub = {"k": "stream", "msgs": [c["msg"]], "sent": c.get("sent", "5a"), "mut": [], "cut": None, "rmax": None,
+                           "tr": dict(c.get("tr") or {}, seed=(c.get("tr") or {}).get("seed", 0) + o), "mode": c.get("mode", "stub")}
+                    if c.get("what", "cut") == "cut":
+                        sub["cut"] = {"msg": 0, "off": o, "how": c.get("how", "eof")}
+                        sub["mode"] = "stub"
+                    else:
+                        sub["mut"] = [{"op": "flip", "msg": 0, "off": o, "mask": c.get("mask", 1)}]
+                    p["cases"][i] = sub
+                    yield p
+                continue
             if c.get("k") != "stream":
                 continue
             nm = len(c["msgs"])
